@@ -23,7 +23,7 @@ FUNCTIONS = ['dtw_distance, dtw_distance_euclidean, dtw_distance_ndim, dtw_dista
              'dtw_distances_length, dtw_distances_ptrs/_matrix/_ndim_ptrs/_ndim_matrix/_matrices/_ndim_matrices', 'dtw_dba_ptrs, dtw_dba_matrix',
              'dtw_warping_paths_affinity(_ndim), dtw_expand_wps_affinity, dtw_expand_wps_slice_affinity, dtw_wps_max, dtw_best_path_affinity, '
              'dtw_wps_negativize/positivize(_value), dtw_wps_loc(_columns), dtw_wps_parts']
-BOUNDS = {'quick': {'l1,l2': '1..4 (data dependent control: l1*l2 <= 9)', 'window': '0..max+1', 'psi': 'core 4-tuples + seeded slice, entries <= length',
+BOUNDS = {'quick': {'l1,l2': '1..4 (max_dist: l1*l2 <= 9; max_step, use_pruning: l1*l2 <= 6)', 'window': '0..max+1', 'psi': 'core 4-tuples + seeded slice, entries <= length',
                     'ndim': '1..2', 'inner_dist': '0,1', 'blocks': 'all, n <= 4', 'dba': '2 series, t and lengths 1..3, windows 0..2, psi 0/1, ndim 1..2, plus (t=5, lengths 5,3) and (t=4, lengths 2,5) with windows 1..2',
                     'affinity': 'l1,l2 1..3 all windows, only_triu both, plus 5x5, 5x6, 6x4 with windows 2..3', 'wps helpers': 'l1,l2 1..3 all windows; 5x5, 4x6, 6x3 (concrete data) windows 1..3; row/column ranges incl. row 0'},
           'thorough': {'l1,l2': '1..5 (data dependent control: l1*l2 <= 12)', 'window': '0..max+1', 'psi': 'all 4-tuples <= min(length,3)',
@@ -226,7 +226,8 @@ def run_task(cfg):
                         for keep, neg in ((True, True), (False, False)):
                             base_bufs = bufs + [['wps', 'double', length]]
                             if ndim == 1:
-                                kcall = ['dtw_warping_paths', ['wps', 's1', l1, 's2', l2, True, keep, neg, 'settings'], 'double']
+                                kname = 'dtw_warping_paths_euclidean' if (inner == 1 and not keep) else 'dtw_warping_paths'    # the exported wrapper of the inner_dist=1 kernel
+                                kcall = [kname, ['wps', 's1', l1, 's2', l2, True, keep, neg, 'settings'], 'double']
                             else:
                                 kcall = ['dtw_warping_paths_ndim', ['wps', 's1', l1, 's2', l2, True, keep, neg, ndim, 'settings'], 'double']
                             idxb = [['i1', 'idx', l1 + l2], ['i2', 'idx', l1 + l2]]
